@@ -203,7 +203,8 @@ impl ActiveTransaction {
     }
 
     pub fn find_savepoint(&self, name: &str) -> Option<usize> {
-        self.savepoints.iter().position(|sp| sp.name == name)
+        // a name can be reused: it then refers to the most recent savepoint of that name
+        self.savepoints.iter().rposition(|sp| sp.name == name)
     }
 
     pub fn add_write_entry(&mut self, entry: WriteEntry) {
